@@ -109,6 +109,14 @@ func AddHooks(ctx *core.Context, cronner Cronner, state core.State) error {
 		// Yikes!  The caller of this hook already has the state lock!
 		fact, err := state.Get(ctx, id)
 		if err != nil {
+			if _, missing := err.(*core.NotFoundError); missing {
+				// Nothing (left) to unschedule: the id is
+				// unknown or its fact has expired.  The
+				// caller finds that out by itself; don't
+				// fail a Clear because of it.
+				core.Log(core.WARN|CRON, ctx, "remHook", "missing", id)
+				return nil
+			}
 			return err
 		}
 		if fact == nil {
